@@ -369,8 +369,17 @@ class SqlRegistry:
         ------
         `None`
         """
-        with self._db.transaction(savepoint=savepoint):
-            yield
+        try:
+            with self._db.transaction(savepoint=savepoint):
+                yield
+        except BaseException:
+            # Anything cached while the transaction was open may describe rows
+            # that have just been rolled back.
+            self.dimension_record_cache.reset()
+            self._managers.refresh()
+            if (summaries := self._managers.caching_context.collection_summaries) is not None:
+                summaries.clear()
+            raise
 
     def resetConnectionPool(self) -> None:
         """Reset SQLAlchemy connection pool for `SqlRegistry` database.
